@@ -14,6 +14,8 @@ import (
 func rLabel(pod string) string       { return "R:" + pod }
 func fLabel(kind, pg string) string  { return "F:" + kind + "@" + pg }
 func isReconcile(label string) bool  { return strings.HasPrefix(label, "R:") }
+func isForeign(label string) bool    { return strings.HasPrefix(label, "F:") }
+func isAbsent(label string) bool     { return strings.HasPrefix(label, "absent:") }
 func parseF(label string) (k, g string) {
 	s := strings.TrimPrefix(label, "F:")
 	i := strings.Index(s, "@")
@@ -48,6 +50,10 @@ func step(w *world, tr *tracker, label string, hist []string, st *stepStats) (vi
 	mk := func(law, key, msg string, writes []write, after *storeView) engine.Violation {
 		return engine.Violation{Property: "C18", Key: key, Message: msg,
 			Replay: replayData{Scenario: sc.Name, Chain: sc.Chain, Law: law, History: append([]string{}, hist...), Writes: writes, Result: after}}
+	}
+	if isAbsent(label) {
+		w.removePod(strings.TrimPrefix(label, "absent:"))
+		return nil, ""
 	}
 	if !isReconcile(label) {
 		kind, g := parseF(label)
@@ -92,7 +98,7 @@ func step(w *world, tr *tracker, label string, hist []string, st *stepStats) (vi
 	if tr.foreign > 0 {
 		followed := false
 		for _, h := range hist[:len(hist)-1] {
-			if !isReconcile(h) {
+			if isForeign(h) {
 				k, g := parseF(h)
 				if pv := after.pod(podName); pv != nil && pv.Group == g {
 					st.foreignKindsFollowed[k] = true
@@ -215,6 +221,7 @@ type scenarioStats struct {
 	MustFree     int                `json:"must_free"`
 	AfterForeign int                `json:"after_foreign"`
 	Perms        int                `json:"perms"`
+	Subsets      int                `json:"subsets"`
 	MaxDepth     int                `json:"max_depth"`
 	Closed       bool               `json:"closed"` // BFS frontier emptied before the depth bound
 	CapHit       bool               `json:"cap_hit"`
@@ -324,6 +331,27 @@ func diffStrMaps(a, b map[string]string) (string, string) {
 	return "", ""
 }
 
+// replicaViolations compares the PodGroups obtained with only a subset of the siblings created against
+// the ones obtained with all siblings (grouper-owned content only).
+func replicaViolations(sc *scenario, hist []string, v *storeView, full *finalState) (out []engine.Violation) {
+	for gi := range v.PGs {
+		g := &v.PGs[gi]
+		ref := full.view.pg(g.Name)
+		if ref == nil {
+			out = append(out, engine.Violation{Property: "C18", Key: fmt.Sprintf("C18/replica-dependent kind=%s field=metadata.name", sc.Kind),
+				Message: fmt.Sprintf("%s: with only a subset of the sibling pods created (%v) PodGroup %s appears, which does not exist when all siblings are present", sc.Name, hist, g.Name),
+				Replay:  replayData{Scenario: sc.Name, Chain: sc.Chain, Law: "replica-independence", History: hist, Other: full.hist, Result: v}})
+			continue
+		}
+		if f, d := diffStrMaps(ownedView(ref), ownedView(g)); f != "" {
+			out = append(out, engine.Violation{Property: "C18", Key: fmt.Sprintf("C18/replica-dependent kind=%s field=%s", sc.Kind, f),
+				Message: fmt.Sprintf("%s: PodGroup %s differs between 'all sibling pods exist' and 'only a subset exists' (%v): %s", sc.Name, g.Name, hist, d),
+				Replay:  replayData{Scenario: sc.Name, Chain: sc.Chain, Law: "replica-independence", History: hist, Other: full.hist, Result: v}})
+		}
+	}
+	return out
+}
+
 func sameMultiset(a, b []string) bool {
 	if len(a) != len(b) {
 		return false
@@ -366,7 +394,7 @@ func explore(sc *scenario, kindID, tier string) *scenarioStats {
 					}
 				}
 			}
-			if !confirmed && rd.Law != "order-independence" {
+			if !confirmed && rd.Law != "order-independence" && rd.Law != "replica-independence" {
 				out.HarnessErr = fmt.Sprintf("%s: violation %s found during search did not reproduce from its history %v", sc.Name, v.Key, rd.History)
 				return
 			}
@@ -433,6 +461,55 @@ func explore(sc *scenario, kindID, tier string) *scenarioStats {
 		if canon[0] != canon[1] {
 			out.HarnessErr = fmt.Sprintf("%s: permutation %v is not reproducible (two executions of the same history differ)", sc.Name, perm)
 			return out
+		}
+	}
+
+	// ---- phase 1b: replica-count independence: with only a subset S of the sibling pods created, one pass over S
+	// must give every PodGroup the same grouper-owned content as with all siblings present.
+	if len(finals) > 0 && len(sc.Pods) > 1 {
+		full := finals[0]
+		for mask := uint(1); mask < allMask; mask++ {
+			skip := false
+			for i, p := range sc.Pods {
+				if mask&(1<<uint(i)) == 0 && sc.Required[p.Name] {
+					skip = true // this pod is itself a link of its siblings' owner chain
+				}
+			}
+			if skip {
+				continue
+			}
+			w.reset(nil)
+			hist := []string{}
+			for i, p := range sc.Pods {
+				if mask&(1<<uint(i)) == 0 {
+					w.removePod(p.Name)
+					hist = append(hist, "absent:"+p.Name)
+				}
+			}
+			tr := &tracker{}
+			present := []int{}
+			for i := range sc.Pods {
+				if mask&(1<<uint(i)) != 0 {
+					present = append(present, i)
+				}
+			}
+			// same pass structure as the reference history (ascending, ascending, descending)
+			order := append(append([]int{}, present...), present...)
+			for i := len(present) - 1; i >= 0; i-- {
+				order = append(order, present[i])
+			}
+			for _, i := range order {
+				hist = append(hist, rLabel(sc.Pods[i].Name))
+				vs, he := step(w, tr, hist[len(hist)-1], hist, st)
+				if he != "" {
+					out.HarnessErr = he
+					return out
+				}
+				out.Transitions++
+				addV(vs)
+			}
+			out.Subsets++
+			addV(replicaViolations(sc, hist, w.view(), full))
 		}
 	}
 
